@@ -100,13 +100,22 @@ pub async fn start(world: Arc<World>, script: HashMap<String, Vec<Outcome>>, def
                                     "sub": parsed.get("subscription").and_then(|s| s.as_str()).unwrap_or(""),
                                     "m": split_id(&mid), "same_id": mid == mid2, "b64ok": data.is_some(),
                                     "data": data.as_ref().map(|d| digest(d)).unwrap_or_default(),
-                                    "attrs": attrs_list(&attrs), "attempt": k, "code": code, "delay": delay,
+                                    // a delayed answer is pending until it is sent (`httpans`)
+                                    "attrs": attrs_list(&attrs), "attempt": k,
+                                    "code": if delay > 0 { -(100 + k as i64) } else { code }, "delay": delay,
                                     "method": method, "json": content_type.starts_with("application/json"),
                                 }),
                             );
                             seen.fetch_add(1, Ordering::SeqCst);
                             if delay > 0 {
                                 tokio::time::sleep(Duration::from_millis(delay)).await;
+                                world.ev(
+                                    "httpans",
+                                    json!({
+                                        "sub": parsed.get("subscription").and_then(|s| s.as_str()).unwrap_or(""),
+                                        "m": split_id(&mid), "attempt": k, "code": code,
+                                    }),
+                                );
                             }
                             if code == -2 {
                                 std::future::pending::<()>().await;
